@@ -33,8 +33,18 @@ def sample_forms(width):
                 continue
             out.append(("idx", list(sub)))
     if width >= 2:
-        out.append(("idx", list(range(width))[::-1]))        # full-length permutation
         out.append(("idx", [width - 1, 0]))                    # unsorted index list
+        # full-length index lists: every permutation of the window (width <= 4), a few for wider windows,
+        # and lists with repeated positions
+        if width <= 4:
+            for p in itertools.permutations(range(width)):
+                if list(p) != list(range(width)):
+                    out.append(("idx", list(p)))
+        else:
+            out.append(("idx", list(range(width))[::-1]))
+            out.append(("idx", [0] + list(range(width - 2, 0, -1)) + [width - 1]))
+            out.append(("idx", list(range(1, width)) + [0]))
+        out.append(("idx", [0] * (width // 2) + [width - 1] * (width - width // 2)))
     return out
 
 
